@@ -17,7 +17,8 @@ func init() {
 			"(1) error-class exhaustiveness — every error value that can leave Reader.ReadEntry (sentinels, fmt.Errorf formats with their %w operands resolved to the errors.New texts, pass-through results of io.ReadFull) is classified under the very predicates the replay loops use (== io.EOF, errors.Is(io.ErrUnexpectedEOF), strings.Contains of the constant substrings found in the loops): none may be 'fatal', because a fatal class makes recovery fail and the open path move every log file aside; " +
 			"(2) never discard logs — no rename/remove of log files on the open/recovery path (destructive-operation table); " +
 			"(3) reuse validates the tail — ReuseWAL opens the newest file for appending only behind a successful entry-boundary scan, which answers true only for a clean io.EOF; readRecord never converts another error into io.EOF and ReadEntry reports io.EOF only with no pending fragments; " +
-			"(4) CRC on every success exit of readRecord; (5) no fabrication — every variable-length slice of parseEntryData is dominated by a bounds check against len(data); a new first fragment discards pending fragments; recoverFromCorruption constructs no entry.",
+			"(4) CRC on every success exit of readRecord; (5) no fabrication — every variable-length slice of parseEntryData is dominated by a bounds check against len(data); a new first fragment discards pending fragments; recoverFromCorruption constructs no entry. " +
+			"(6) second level: the errors ReplayWALFile itself returns while handling a damaged record are classified 'skip this file' by ReplayWALDir's predicates (substring or errors.Is against a sentinel the error wraps); no read after the first of a record can leave readRecord as a clean io.EOF.",
 		NotDecided: "the set of entries delivered for each truncation offset / corruption position (enumeration: a different family); that resynchronisation after skipping 32 KB finds a record boundary.",
 		Rules:      []func(*Ctx, *Reporter){ruleWalErrorClasses, ruleDestructiveOps, ruleReuseValidatesTail, ruleWalCRC, ruleNoFabrication},
 	})
